@@ -35,6 +35,7 @@ Json Plan::to_json() const {
   w.set("stick_pct", this->w.k.stick_pct);
   w.set("core_dumps", this->w.k.core_dumps);
   w.set("stall_num", this->w.k.stall_num);
+  w.set("errno_clobber", this->w.k.errno_clobber);
   w.set("clock_step_at_ms", (long long) this->w.k.clock_step_at_ms).set("clock_step_ms", (long long) this->w.k.clock_step_ms);
   w.set("low_fds", this->w.low_fds);
   w.set("sigpipe", this->w.sigpipe);
@@ -115,6 +116,7 @@ bool Plan::from_json(const Json &j, Plan *p) {
   p->w.k.stick_pct = (unsigned) w.num("stick_pct", 50);
   p->w.k.core_dumps = (unsigned) w.num("core_dumps", 0);
   p->w.k.stall_num = (unsigned) w.num("stall_num", 0);
+  p->w.k.errno_clobber = (unsigned) w.num("errno_clobber", 0);
   p->w.k.clock_step_at_ms = (int64_t) w.num("clock_step_at_ms", -1);
   p->w.k.clock_step_ms = (int64_t) w.num("clock_step_ms", 0);
   p->w.low_fds = (int) w.num("low_fds", 7);
